@@ -162,16 +162,16 @@ Qed.
 
 (* a run of character data that ends at a tag *)
 Lemma good_run a v x evs :
-  a <> [] -> mem LT a = false -> xml_chardata_decode a = Some v -> opens x ->
+  a <> [] -> v <> [] -> mem LT a = false -> xml_chardata_decode a = Some v -> opens x ->
   Good (LT :: x) evs -> Good (a ++ LT :: x) (EvChars v :: evs).
 Proof.
-  intros Hne Hm Hd Hx G f Hf. destruct f as [|f]; [cbn in Hf; lia|].
+  intros Hne Hv Hm Hd Hx G f Hf. destruct f as [|f]; [cbn in Hf; lia|].
   destruct a as [|c0 r0] eqn:E; [congruence|].
   pose proof Hm as Hm'. rewrite mem_cons in Hm'. apply orb_false_iff in Hm' as [Hm1 Hm2].
   cbn [app tokens]. rewrite N.eqb_sym, Hm1.
   change (c0 :: r0 ++ LT :: x) with ((c0 :: r0) ++ LT :: x).
   rewrite take_run_text; [|exact Hm|rewrite app_length; cbn [length]; lia|exact Hx].
-  rewrite Hd. rewrite G; [reflexivity|].
+  rewrite Hd. rewrite G; [destruct v; [congruence|reflexivity]|].
   rewrite app_length in Hf. cbn [length] in Hf |- *. lia.
 Qed.
 
@@ -243,7 +243,7 @@ Proof.
   destruct (pbody_opens (S i) k (flat_map (fun k0 => indent_ws (S i) ++ pbody (S i) k0) ks ++ rest) Hn1)
     as (x & Ex & Hx).
   rewrite Ex in *.
-  apply good_run; [apply indent_nonempty|apply indent_no_lt|apply decode_indent|exact Hx|exact Gk].
+  apply good_run; [apply indent_nonempty|apply indent_nonempty|apply indent_no_lt|apply decode_indent|exact Hx|exact Gk].
 Qed.
 
 Lemma pbody_head i n attrs t kids rest :
@@ -296,7 +296,7 @@ Proof.
       (* after the last child: line break, indentation, end tag *)
       assert (G2 : Good (indent_ws i ++ LT :: SLASH :: n ++ GT :: rest)
                         (EvChars (indent_ws i) :: EvEnd n :: evs)).
-      { apply good_run; [apply indent_nonempty|apply indent_no_lt|apply decode_indent|apply opens_slash|exact G1]. }
+      { apply good_run; [apply indent_nonempty|apply indent_nonempty|apply indent_no_lt|apply decode_indent|apply opens_slash|exact G1]. }
       pose proof (pkids_good ks Hks Hk2 Hnk2 i _ _ G2) as G3.
       pose proof (Hk0 Hk1 Hnk1 (S i) _ _ G3) as G4.
       (* the events, flattened *)
@@ -310,15 +310,16 @@ Proof.
       unfold opt_text_render.
       destruct t as [tx|].
       2: { cbn [has_text app]. apply good_run;
-             [apply indent_nonempty|apply indent_no_lt|apply decode_indent|exact Hx|exact G4]. }
+             [apply indent_nonempty|apply indent_nonempty|apply indent_no_lt|apply decode_indent|exact Hx|exact G4]. }
       destruct (has_text (Some tx)) eqn:Etext.
       * destruct (Htext tx eq_refl eq_refl) as (Etx & Hl & He & Hne). rewrite Etx. cbn [txt_chars].
         rewrite app_assoc.
-        apply good_run; [| |now apply decode_text_indent|exact Hx|exact G4].
+        apply good_run; [| | |now apply decode_text_indent|exact Hx|exact G4].
+        -- intro E0. apply app_eq_nil in E0 as [_ E0]. discriminate.
         -- intro E0. apply app_eq_nil in E0 as [_ E0]. discriminate.
         -- rewrite mem_app, rt1_no_lt, indent_no_lt. reflexivity.
       * cbn [app]. apply good_run;
-          [apply indent_nonempty|apply indent_no_lt|apply decode_indent|exact Hx|exact G4].
+          [apply indent_nonempty|apply indent_nonempty|apply indent_no_lt|apply decode_indent|exact Hx|exact G4].
 Qed.
 
 Lemma pretty_tokens_l : forall t,
